@@ -873,23 +873,12 @@ func agree(args []string, v t38.Value, r t38.JSONReply, tnt *taint) (outcome, di
 	}
 	switch name {
 	case "get", "set", "fset":
-		withfields := hasToken(in, 3, "withfields")
-		payload := v
-		var rf map[string][]string
-		if withfields && (name == "get" || hasToken(in, 3, "return")) {
-			if v.Kind != '*' || v.Null || len(v.Arr) < 1 || len(v.Arr) > 2 {
-				return "ok", fmt.Sprintf("WITHFIELDS reply is not [value (fields)]: %s", v)
-			}
-			payload = v.Arr[0]
-			rf = map[string][]string{}
-			if len(v.Arr) == 2 {
-				var ok bool
-				if rf, ok = respFieldPairs(v.Arr[1]); !ok {
-					return "ok", fmt.Sprintf("RESP field list malformed: %s", v.Arr[1])
-				}
-			}
-		}
+		// object / point / bounds / hash, optionally wrapped as [value (fields)]
+		// by WITHFIELDS. Whether the reply is wrapped is read off its structure
+		// (a mutated argument vector may contain the word without the option
+		// being in effect).
 		jf := map[string][]any{}
+		hasJF := false
 		if f, has := top["fields"]; has {
 			m, ok := f.(map[string]any)
 			if !ok {
@@ -899,38 +888,64 @@ func agree(args []string, v t38.Value, r t38.JSONReply, tnt *taint) (outcome, di
 				jf[k] = []any{j}
 			}
 			delete(top, "fields")
-			if rf == nil {
-				return "ok", fmt.Sprintf("JSON has fields but RESP reply %s carries none", v)
-			}
-		}
-		if d := fieldsAgree(rf, jf); d != "" {
-			return "ok", d
+			hasJF = true
 		}
 		if len(top) != 1 {
 			return "ok", fmt.Sprintf("expected exactly one of object/point/bounds/hash in JSON: %s", r.Raw)
 		}
+		var kind string
+		var jv any
 		for k, j := range top {
-			switch k {
-			case "object":
-				t, ok := bulkText(payload)
-				if !ok {
-					return "ok", fmt.Sprintf("RESP object is not a bulk string: %s", v)
-				}
-				return "ok", objectAgree(t, j)
-			case "point":
-				return "ok", pointAgree(payload, j)
-			case "bounds":
-				return "ok", simpleBoundsAgree(payload, j)
-			case "hash":
-				t, ok := bulkText(payload)
-				s, ok2 := j.(string)
-				if !ok || !ok2 || t != s {
-					return "ok", fmt.Sprintf("hash differs: RESP %s, JSON %v", payload, j)
-				}
-				return "ok", ""
-			default:
-				return "ok", fmt.Sprintf("unexpected JSON member %q", k)
+			kind, jv = k, j
+		}
+		wrapped := false
+		switch kind {
+		case "object", "hash":
+			wrapped = v.Kind == '*'
+		case "point":
+			wrapped = v.Kind == '*' && len(v.Arr) > 0 && v.Arr[0].Kind == '*'
+		case "bounds":
+			wrapped = v.Kind == '*' && len(v.Arr) > 0 && v.Arr[0].Kind == '*' && len(v.Arr[0].Arr) > 0 && v.Arr[0].Arr[0].Kind == '*'
+		default:
+			return "ok", fmt.Sprintf("unexpected JSON member %q", kind)
+		}
+		payload := v
+		rf := map[string][]string{}
+		if wrapped {
+			if v.Null || len(v.Arr) < 1 || len(v.Arr) > 2 {
+				return "ok", fmt.Sprintf("WITHFIELDS reply is not [value (fields)]: %s", v)
 			}
+			payload = v.Arr[0]
+			if len(v.Arr) == 2 {
+				var ok bool
+				if rf, ok = respFieldPairs(v.Arr[1]); !ok {
+					return "ok", fmt.Sprintf("RESP field list malformed: %s", v.Arr[1])
+				}
+			}
+		} else if hasJF {
+			return "ok", fmt.Sprintf("JSON has fields but the RESP reply %s carries none", v)
+		}
+		if d := fieldsAgree(rf, jf); d != "" {
+			return "ok", d
+		}
+		switch kind {
+		case "object":
+			t, ok := bulkText(payload)
+			if !ok {
+				return "ok", fmt.Sprintf("RESP object is not a bulk string: %s", v)
+			}
+			return "ok", objectAgree(t, jv)
+		case "point":
+			return "ok", pointAgree(payload, jv)
+		case "bounds":
+			return "ok", simpleBoundsAgree(payload, jv)
+		default:
+			t, ok := bulkText(payload)
+			s, ok2 := jv.(string)
+			if !ok || !ok2 || t != s {
+				return "ok", fmt.Sprintf("hash differs: RESP %s, JSON %v", payload, jv)
+			}
+			return "ok", ""
 		}
 	case "bounds":
 		if d := only(top, "bounds"); d != "" {
